@@ -89,8 +89,9 @@ def work(chunk):
         dist += 1
         want = spec_render(s)
         got = real_render(s)
-        if want[0] == 'reject' or got[0] == 'reject':
-            # what counts as an invalid expression is C11's business
+        if want[0] == 'reject':
+            # ${...} around no valid expression: what happens then is C11's business.  The converse
+            # is not: a template whose every ${...} has a valid extent must not be rejected
             continue
         if want[0] == 'raise' and got[0] == 'raise':
             continue
